@@ -29,6 +29,11 @@ var (
 	Quarantine int
 	// Enabled turns tracking on.
 	Enabled bool
+	// PassDoubleRelease: a second release of a buffer is reported and then
+	// also handed to the real pool, as the shipped code would do, so that the
+	// run shows what the double release leads to (two owners of one array).
+	// Off, the second release is reported and dropped.
+	PassDoubleRelease bool
 	// Report receives C20 findings.
 	Report func(clause, detail string)
 )
@@ -97,8 +102,13 @@ func Get(size int) []byte {
 			full[i] = v
 		}
 	}
-	state[unsafe.SliceData(full)] = 1
+	p := unsafe.SliceData(full)
+	aliased := state[p] == 1
+	state[p] = 1
 	mu.Unlock()
+	if aliased && Report != nil {
+		Report("aliased-buffer", fmt.Sprintf("the pool handed out an array (cap %d) that is still in use by an earlier owner (after a double release); taken at %s", len(full), caller()))
+	}
 	return b
 }
 
@@ -118,6 +128,9 @@ func Release(b []byte) {
 		mu.Unlock()
 		if Report != nil {
 			Report("double-release", "buffer released twice: first at "+first+"; again at "+caller())
+		}
+		if PassDoubleRelease {
+			bytespool.Release(b)
 		}
 		return
 	case 0:
